@@ -135,3 +135,80 @@ class Gen(object):
         if self.rng.random() < ptail:
             ids += self.tail()
         return ids
+
+
+def scoped(ids, D):
+    """True when every data-description operator is opened and closed within one replication
+    scope (C08's proviso): the operator state at the end of every replication body equals the
+    state at its start, and no 206/221 range or bitmap construct straddles a body boundary."""
+
+    def expand(lst, depth=0):
+        out = []
+        for i in lst:
+            if i >= 300000 and depth < 12:
+                if i not in D:
+                    return None
+                sub = expand(D[i], depth + 1)
+                if sub is None:
+                    return None
+                out.append(('seq', sub))
+            else:
+                out.append(i)
+        return out
+
+    def walk(lst, st, top):
+        i = 0
+        n = len(lst)
+        while i < n:
+            d = lst[i]
+            i += 1
+            if isinstance(d, tuple):
+                if not walk(d[1], st, top):
+                    return False
+                continue
+            if st['dnp'] > 0:
+                st['dnp'] -= 1
+            if st['skip']:
+                st['skip'] = 0
+                continue
+            F = d // 100000
+            if F == 1:
+                X, Y = d // 1000 % 100, d % 1000
+                if Y == 0:
+                    i += 1
+                body = lst[i:i + X]
+                i += X
+                before = dict(st)
+                if not walk(body, st, False):
+                    return False
+                if st != before:
+                    return False
+            elif F == 2:
+                op, y = d // 1000, d % 1000
+                if op in (201, 202, 207, 208):
+                    st[op] = y
+                elif op == 203:
+                    if y == 0:
+                        st[203] = 0
+                        st['ref'] = 0
+                    elif y == 255:
+                        st[203] = 0
+                    else:
+                        st[203] = y
+                        st['ref'] = 1
+                elif op == 204:
+                    st[204] = st[204] + (1 if y else -1)
+                elif op == 206:
+                    st['skip'] = 1
+                elif op == 221:
+                    st['dnp'] = y
+                elif op in (222, 223, 224, 225, 232, 235, 236, 237):
+                    if not top and not (y == 255 and op in (223, 224, 225, 232)):
+                        return False
+        return True
+
+    ex = expand(list(ids))
+    if ex is None:
+        return False
+    st = {201: 0, 202: 0, 203: 0, 204: 0, 207: 0, 208: 0, 'ref': 0, 'skip': 0, 'dnp': 0}
+    return walk(ex, st, True)
